@@ -84,6 +84,15 @@ impl Hs {
     }
 }
 
+/// "probe": observe the partially built entry between its builder calls (serialise it into a scratch sink): an
+/// observation must not change what is finally emitted.
+fn probe(e: &Value, o: &dyn acpi_tables::Aml) {
+    if e.get("probe").map(bool_of).unwrap_or(false) {
+        let mut v = Vec::new();
+        o.to_aml_bytes(&mut v);
+        let _ = acpi_tables::u8sum(o);
+    }
+}
 fn calls(e: &Value) -> &[Value] {
     list(e, "calls")
 }
@@ -150,6 +159,7 @@ pub fn mk_gicc(e: &Value) -> madt::Gicc {
     let a = get(e, "a");
     let mut g = madt::Gicc::new(enabled_status(str_of(get(a, "status"))));
     for c in calls(e) {
+        probe(e, &g);
         g = match cname(c) {
             "performance_interrupt" => g.performance_interrupt(u32_of(carg(c, "gsi")), trigger(str_of(carg(c, "trigger")))),
             "maintenance_interrupt" => g.maintenance_interrupt(u32_of(carg(c, "gsi")), trigger(str_of(carg(c, "trigger")))),
@@ -185,6 +195,7 @@ pub fn mk_gicd(e: &Value) -> madt::Gicd {
 pub fn mk_gicmsi(e: &Value) -> madt::GicMsi {
     let mut g = madt::GicMsi::new();
     for c in calls(e) {
+        probe(e, &g);
         g = match cname(c) {
             "gic_msi_frame_id" => g.gic_msi_frame_id(u32_of(carg(c, "v"))),
             "base_addr" => g.base_addr(u64_of(carg(c, "v"))),
@@ -230,6 +241,7 @@ pub fn mk_memaff(e: &Value) -> srat::MemoryAffinity {
     let a = get(e, "a");
     let mut m = srat::MemoryAffinity::new(u32_of(get(a, "pxm")), u64_of(get(a, "base")), u64_of(get(a, "length")));
     for c in calls(e) {
+        probe(e, &m);
         m = match cname(c) {
             "enabled" => m.enabled(),
             "hotpluggable" => m.hotpluggable(),
@@ -249,6 +261,7 @@ pub fn mk_geninit(e: &Value) -> srat::GenericInitiator {
     };
     let mut g = srat::GenericInitiator::new(u32_of(get(a, "pxm")), handle);
     for c in calls(e) {
+        probe(e, &g);
         g = match cname(c) {
             "enabled" => g.enabled(),
             "architectural" => g.architectural(),
@@ -261,6 +274,7 @@ pub fn mk_rintcaff(e: &Value) -> srat::RintcAffinity {
     let a = get(e, "a");
     let mut r = srat::RintcAffinity::new(arr_n(get(a, "uid")), u32_of(get(a, "clock")));
     for c in calls(e) {
+        probe(e, &r);
         r = match cname(c) {
             "enabled" => r.enabled(),
             "proximity_domain" => r.proximity_domain(u32_of(carg(c, "v"))),
@@ -311,6 +325,7 @@ pub fn mk_sllbi(e: &Value) -> hmat::SystemLocality {
     };
     let mut s = hmat::SystemLocality::new(loc, dt, mts, u64_of(get(a, "base_unit")), u64_of(get(a, "ni")) as usize, u64_of(get(a, "nt")) as usize);
     for c in calls(e) {
+        probe(e, &s);
         match cname(c) {
             "non_sequential_transfers" => s.non_sequential_transfers(),
             "minimum_transfer_size_required" => s.minimum_transfer_size_required(),
@@ -345,6 +360,7 @@ pub fn mk_msci(e: &Value) -> hmat::MemorySideCache {
     };
     let mut m = hmat::MemorySideCache::new(u32_of(get(a, "pxm")), u64_of(get(a, "size")), lvl(str_of(get(a, "total"))), lvl(str_of(get(a, "this"))), assoc, pol, u16_of(get(a, "line")));
     for c in calls(e) {
+        probe(e, &m);
         match cname(c) {
             "add_smbios_handle" => m.add_smbios_handle(u16_of(carg(c, "v"))),
             x => panic!("msci call {x}"),
@@ -359,6 +375,7 @@ pub fn mk_proc(e: &Value, hs: &Hs) -> pptt::ProcessorNode {
     let parent = if u64_of(get(a, "parent")) == 0 { None } else { Some(hs.proc_(get(a, "parent"))) };
     let mut p = pptt::ProcessorNode::new(parent, u32_of(get(a, "id")));
     for c in calls(e) {
+        probe(e, &p);
         p = match cname(c) {
             "physical" => p.physical(),
             "valid" => p.valid(),
@@ -437,6 +454,7 @@ pub fn mk_hart(e: &Value, hs: &Hs) -> rhct::HartInfoNode {
     let a = get(e, "a");
     let mut h = rhct::HartInfoNode::new(u32_of(get(a, "uid")), hs.isa(get(a, "isa")));
     for c in calls(e) {
+        probe(e, &h);
         h = match cname(c) {
             "with_cmo" => h.with_cmo(hs.cmo(carg(c, "ref"))),
             x => panic!("hart call {x}"),
@@ -552,6 +570,7 @@ pub fn mk_cfmws(e: &Value) -> cedt::CxlFixedMemory {
         m.add_target(arr_n(t)); // targets supplied up front (stand-alone serialisation requires the full list)
     }
     for c in calls(e) {
+        probe(e, &m);
         m = match cname(c) {
             "cxl_type_2_memory" => m.cxl_type_2_memory(),
             "cxl_type_3_memory" => m.cxl_type_3_memory(),
@@ -571,6 +590,7 @@ pub fn mk_cxims(e: &Value) -> cedt::XorInterleaveMath {
     let a = get(e, "a");
     let mut x = cedt::XorInterleaveMath::new(gran(str_of(get(a, "gran"))));
     for c in calls(e) {
+        probe(e, &x);
         match cname(c) {
             "add_xormap" => x.add_xormap(u64_of(carg(c, "v"))),
             o => panic!("cxims call {o}"),
@@ -603,6 +623,7 @@ pub fn mk_aerroot(e: &Value) -> hest::PcieAerRootPort {
     let a = get(e, "a");
     let mut s = if str_of(get(a, "ctor")) == "global" { hest::PcieAerRootPort::new_global() } else { hest::PcieAerRootPort::new_root_port(ff(str_of(get(a, "ff"))), hest_pci(get(a, "pci"))) };
     for c in calls(e) {
+        probe(e, &s);
         s = match cname(c) {
             "num_records" => s.num_records(u32_of(carg(c, "v"))),
             "max_sections" => s.max_sections(u32_of(carg(c, "v"))),
@@ -621,6 +642,7 @@ pub fn mk_aerdev(e: &Value) -> hest::PcieAerDevice {
     let a = get(e, "a");
     let mut s = if str_of(get(a, "ctor")) == "global" { hest::PcieAerDevice::new_global() } else { hest::PcieAerDevice::new_root_port(ff(str_of(get(a, "ff"))), hest_pci(get(a, "pci"))) };
     for c in calls(e) {
+        probe(e, &s);
         s = match cname(c) {
             "num_records" => s.num_records(u32_of(carg(c, "v"))),
             "max_sections" => s.max_sections(u32_of(carg(c, "v"))),
@@ -638,6 +660,7 @@ pub fn mk_aerbridge(e: &Value) -> hest::PcieAerBridge {
     let a = get(e, "a");
     let mut s = if str_of(get(a, "ctor")) == "global" { hest::PcieAerBridge::new_global() } else { hest::PcieAerBridge::new_bridge(ff(str_of(get(a, "ff"))), hest_pci(get(a, "pci"))) };
     for c in calls(e) {
+        probe(e, &s);
         s = match cname(c) {
             "num_records" => s.num_records(u32_of(carg(c, "v"))),
             "max_sections" => s.max_sections(u32_of(carg(c, "v"))),
@@ -701,6 +724,7 @@ pub fn mk_ghes(e: &Value) -> hest::GenericHardwareSource {
     let a = get(e, "a");
     let mut s = hest::GenericHardwareSource::new(u16_of(get(a, "source_id")), hest_enabled(str_of(get(a, "enabled"))));
     for c in calls(e) {
+        probe(e, &s);
         s = match cname(c) {
             "num_records" => s.num_records(u32_of(carg(c, "v"))),
             "max_sections" => s.max_sections(u32_of(carg(c, "v"))),
@@ -717,6 +741,7 @@ pub fn mk_ghesv2(e: &Value) -> hest::GenericHardwareSourceV2 {
     let a = get(e, "a");
     let mut s = hest::GenericHardwareSourceV2::new(u16_of(get(a, "source_id")), hest_enabled(str_of(get(a, "enabled"))));
     for c in calls(e) {
+        probe(e, &s);
         s = match cname(c) {
             "num_records" => s.num_records(u32_of(carg(c, "v"))),
             "max_sections" => s.max_sections(u32_of(carg(c, "v"))),
@@ -760,6 +785,10 @@ pub fn mk_qos(e: &Value) -> rqsc::QoSController {
     };
     let mut q = rqsc::QoSController::new(t, mk_gas(get(a, "reg")), u32_of(get(a, "rcid")), u32_of(get(a, "mcid")), u16_of(get(a, "flags")));
     for c in calls(e) {
+        probe(e, &q);
+        if e.get("probe").map(bool_of).unwrap_or(false) {
+            let _ = q.len();
+        }
         match cname(c) {
             "add_resource" => q.add_resource(mk_resource(carg(c, "v"))),
             x => panic!("qos call {x}"),
